@@ -45,7 +45,16 @@ def units(tier, seed):
     from checks import hello
     extra_hello = [hello.unit(('K3',), 'K3 round trip')]
     from checks import foundation
-    return list([unit_for(c) for c in classes]) + extra_hello + foundation.units(tier, seed)
+    # objects a caller builds by editing a vector in place: the C12 units show that after every accepted edit the object
+    # state (items and tracked body size) is the state the constructor gives for the same items, so K3 above applies to it
+    from checks import c12
+    edited = []
+    for vcls, param, w in [v for v in c12.fixed_vectors() if v[0].__name__ in ('CtExtensions', 'TlsECPointFormatVector')]:
+        for op in c12.OPS:
+            replay, search = c12.replay_for(vcls, op)
+            edited.append(Unit('edited-object/%s/%s' % (vcls.__name__, op), c12.op_unit(vcls, param, w, op), replay=replay,
+                               search=search, clause='K3 on edited objects', functions=['ArrayBase.%s' % op, 'ArrayBase._update_items_size']))
+    return list([unit_for(c) for c in classes]) + extra_hello + edited + foundation.units(tier, seed)
 
 
 from checks import regions as _regions
